@@ -260,3 +260,15 @@ package sql
 //@ mode nosafety
 //@ ensures[C06:common-prefix-up-to-the-first-delimiter-after-the-prefix] strings.HasPrefix(key, prefix) ==> specCommonPrefixOK(prefix, key, delimiter, result)
 //@ ensures[C06:foreign-key-never-grouped] !strings.HasPrefix(key, prefix) ==> result == nil
+
+// C01. A bucket is deleted only after the repository reported that it holds no object rows (objects, versions, delete
+// markers and pending uploads are all object rows), in this call, for this bucket.
+//@ func (*sqlMetadataStore).DeleteBucket
+//@ mode effects
+//@ trust nonnil object.Repository.ContainsBucketObjectsByBucketName
+//@ trust nonnil bucket.Repository.ExistsBucketByName
+//@ effect[C01:bucket-deleted-only-when-empty] every sms.bucketRepository.DeleteBucketByName(_, _, $b)
+//@     needs before sms.objectRepository.ContainsBucketObjectsByBucketName(_, _, $cb) -> ($c, $e)
+//@     where $e == nil && $c != nil && !*$c && $cb == $b && $b == bucketName
+//@ ensures[C01:non-empty-bucket-refused] called(sms.objectRepository.ContainsBucketObjectsByBucketName) && result_of(sms.objectRepository.ContainsBucketObjectsByBucketName, 1) == nil &&
+//@     *result_of(sms.objectRepository.ContainsBucketObjectsByBucketName, 0) ==> err == metadatastore.ErrBucketNotEmpty
